@@ -357,6 +357,24 @@ Proof.
 Qed.
 Print Assumptions C02_gen_SRem_real_encoding.
 
+(* ... and [dec_ok] is not a free hypothesis either (extension 3): the real
+   decimal rendering Model4.dec10 (strconv.FormatInt base 10) meets it
+   (Property4.C02_dec10_dec_ok), so the two SRem squares hold for the member
+   strings the code writes, digits included, for every instance id; what is
+   left is the rendering of the request ids *)
+Theorem C02_gen_SRem_real_decimal :
+  forall (ridof : Z -> Model4.str) (inst : Model4.str),
+    (forall r, Model4.cfree (ridof r)) -> (forall r r', ridof r = ridof r' -> r = r') ->
+    let enc := enc_of Model4.dec10 ridof inst in
+    (forall c s t q e rest p key, key <> [] -> Rm enc p key (members s q) ->
+       exists p', Gen.SRem p key (enc (e, self t)) = Normal p' ErrNil
+         /\ Rm enc p' key (members (exec c s t (FDecRem q e) rest) q) /\ frame_ok p p' key) /\
+    (forall c s t q e r' rest p key, key <> [] -> (e <=? now s) = true -> Rm enc p key (members s q) ->
+       exists p', Gen.SRem p key (enc (e, r')) = Normal p' ErrNil
+         /\ Rm enc p' key (members (exec c s t (GItem q e r') rest) q) /\ frame_ok p p' key).
+Proof. exact (C02_gen_SRem_real_encoding Model4.dec10 Model4.undecZ Property4.C02_dec10_dec_ok). Qed.
+Print Assumptions C02_gen_SRem_real_decimal.
+
 (* its hypotheses are satisfiable (one-code renderings, as Property4.C02_ex_dec_ok),
    with an instance id that contains the separator: "d::g" *)
 Definition ridof1 (r : Z) : Model4.str := [if r <? 58 then r else r + 1].
